@@ -348,7 +348,8 @@ func (p *PX) from(fr *pxFrame, b *ssa.BasicBlock, idx int, st *PXState, depth in
 			}
 			var cf *ssa.Function
 			var cells []ssa.Value
-			if f, binds := closureCallee(x); f != nil {
+			if f, binds := closureCallee(x); f != nil && f.Synthetic == "" {
+				// (a compiler-made wrapper of a method value is not walked into: the call is a call of the method)
 				cf = f
 				for _, b := range binds {
 					cells = append(cells, p.cellOf(fr, b))
